@@ -7,7 +7,7 @@
 (* compared with the Eval machine under EVERY completion of the            *)
 (* unavailable variables and with three-valued (Kleene) evaluation.        *)
 (***************************************************************************)
-EXTENDS Machine
+EXTENDS Machine, Json
 
 CONSTANTS Big
 
@@ -85,4 +85,6 @@ K == Kleene(tree, env, av \cup {"n0"})
 InDomain == NoSubFails(tree, env)
 Informative == (Done /\ InDomain /\ Definite(K)) => VEq(s.res, K)
 UndecidedIsDNE == (Done /\ InDomain /\ IsDNE(K)) => (IsDNE(s.res) \/ Definite(s.res))
+\* every tree of the bounded set is printed once, for replay against the real code
+EmitTrees == (s.st = "cfg") => PrintT("CASE " \o ToJson(tree))
 =============================================================================
